@@ -54,6 +54,11 @@ K17 = [
         "mod.py": "class Kls:\n    def __init__(self, {0}):\n        self.{1} = {0}\n    def reset(self):\n        self.{1} = (\n            0\n        )\n",
         "main.py": "from mod import Kls\n{2} = Kls(5)\n{2}.{1} = (\n    {2}.{1} * 10\n    + 7\n)\nprint({2}.{1})\n{2}.{1} += sum([\n    1,\n    2,\n])\nprint({2}.{1})\n{2}.reset()\nprint({2}.{1})\n"}),
      lambda files, names: dict(api="encapsulate_field", path="mod.py", offset=_off(files, "mod.py", "self.", 0, 5))),
+    # method object for a helper nested two levels deep, inside a method that is not the last member of
+    # its class (the generated class has to go after the whole enclosing top-level definition)
+    (Skeleton("f08_method_object_nested_helper", {
+        "main.py": "class Shape:\n    def __init__(self, {0}):\n        self.side = {0}\n    def area(self, {1}):\n        def square({2}):\n            {3} = {2} * {2}\n            return {3}\n        return square(self.side) + {1}\n    def perimeter(self):\n        return 4 * self.side\nprint(Shape(3).area(1), Shape(3).perimeter())\n"}),
+     lambda files, names: dict(api="method_object", path="main.py", offset=_off(files, "main.py", "square"), name="FunObject")),
 ]
 
 
